@@ -24,6 +24,17 @@ char *strncpy(char *dst, const char *src, size_t n)
         return dst;
 }
 
+/* memcpy with the standard semantics as a byte loop: CBMC's built-in model turns a copy of SYMBOLIC length (cat.c:
+ * print_nstring_to_buf copies strlen(name) bytes) into a byte_update with a variable-size source, which is cheap once or
+ * twice but exhausted 15-30 GB as soon as the event FSM formats into its buffer over a guided run */
+void *memcpy(void *dst, const void *src, size_t n)
+{
+        size_t i;
+        for (i = 0; i < n; i++)
+                ((unsigned char *)dst)[i] = ((const unsigned char *)src)[i];
+        return dst;
+}
+
 static int verif_emit(char *buf, size_t n, const char *txt, int len)
 {
         int i;
